@@ -40,6 +40,13 @@ func TestWriteTable(t *testing.T) {
 	if dir == "" {
 		t.Skip("VERIF_WRITE_TABLE not set")
 	}
+	for _, e := range refprop.FindingWitnesses {
+		cb, _ := json.Marshal(refprop.TableCase(e))
+		rb, _ := json.MarshalIndent(h.Replay{Property: "C01", Message: "known finding witness: " + e.Origin, Case: cb}, "", " ")
+		if err := os.WriteFile(filepath.Join(dir, "..", "findings", e.Name+".json"), rb, 0o644); err != nil {
+			t.Fatal(err)
+		}
+	}
 	for _, e := range refprop.Table {
 		prop := "C01"
 		if e.RTL {
